@@ -278,6 +278,25 @@ fn quad_case<S: Fl>(ctx: &mut Ctx) {
             let back = s.to_cubic().to_quadratic();
             let e = back.ctrl().iter().zip(&ctrl).map(|(x, y)| dist(*x, *y)).fold(0.0, f64::max);
             orc.check(e <= k * m * 4.0, "quad.to_cubic/to_quadratic", "generic", || format!("err={:e}", e));
+            // length agrees with the length of the sampled curve (independent reference: 2048-step polyline in f64)
+            if g != Gen::Wide {
+                let n = 2048;
+                let mut reflen = 0.0f64;
+                let mut prev = casteljau(&ctrl, 0.0);
+                for i in 1..=n {
+                    let q = casteljau(&ctrl, i as f64 / n as f64);
+                    reflen += ((q.0 - prev.0).powi(2) + (q.1 - prev.1).powi(2)).sqrt();
+                    prev = q;
+                }
+                let len = s.length().f();
+                let tol = if S::BITS == 32 { 2e-3 } else { 1e-4 } * (m + reflen);
+                orc.check(
+                    (len - reflen).abs() <= tol || !len.is_finite(),
+                    "quad.length/reference",
+                    "generic",
+                    || format!("length()={} sampled={} err={:e} tol={:e}", len, reflen, (len - reflen).abs(), tol),
+                );
+            }
             // lengths of the pieces add up (closed-form length; t in [0,1])
             let t = p.t.f();
             if (0.0..=1.0).contains(&t) && g != Gen::Wide {
@@ -340,6 +359,26 @@ fn cubic_case<S: Fl>(ctx: &mut Ctx) {
             let e = dist(s.transformed(&p.xf).sample(p.u), p.xf.transform_point(s.sample(p.u)));
             let tol = k * (m + 1.0) * 16.0 * growth(&[u], 6);
             orc.check(e <= tol, "cubic.transformed/sample", "generic", || format!("err={:e} tol={:e}", e, tol));
+            // approximate_length agrees with the length of the sampled curve within the tolerance
+            if g != Gen::Wide {
+                let n = 2048;
+                let mut reflen = 0.0f64;
+                let mut prev = casteljau(&ctrl, 0.0);
+                for i in 1..=n {
+                    let q = casteljau(&ctrl, i as f64 / n as f64);
+                    reflen += ((q.0 - prev.0).powi(2) + (q.1 - prev.1).powi(2)).sqrt();
+                    prev = q;
+                }
+                let tolr = S::of((m * 1e-3).max(1e-3));
+                let len = s.approximate_length(tolr).f();
+                let tol = 0.02 * reflen + 8.0 * tolr.f();
+                orc.check(
+                    (len - reflen).abs() <= tol || !len.is_finite(),
+                    "cubic.length/reference",
+                    "generic",
+                    || format!("approximate_length()={} sampled={} err={:e} tol={:e}", len, reflen, (len - reflen).abs(), tol),
+                );
+            }
             // lengths of the pieces add up, within the approximation tolerance
             let t = p.t.f();
             if (0.0..=1.0).contains(&t) && g != Gen::Wide {
